@@ -456,3 +456,16 @@ func lessFor[K2 comparable](keys []K2) func(x, y K2) bool {
 		return sprint(x) < sprint(y)
 	}
 }
+
+// SortedKeys returns the keys of m in canonical order without drawing from
+// the PRNG (white-box snapshots).
+//
+//go:norace
+func SortedKeys[K2 comparable, V any](m map[K2]V) []K2 {
+	keys := make([]K2, 0, len(m))
+	for k := range m {
+		keys = append(keys, k)
+	}
+	sortKeys(keys)
+	return keys
+}
